@@ -3074,7 +3074,7 @@ func accentTable(l *Loaded, g *ssa.Global) map[rune]rune {
 func c01r12(c *Ctx, r *Report) {
 	l := c.L
 	r.rule("C01-R12", "E (the accent table is closed under case)", "P1",
-		"for every entry k -> v of algo.normalized with v in a..z whose upper-case form U = unicode.ToUpper(k) is a different letter with unicode.ToLower(U) == k and U inside the range the readers admit (0x00C0..0x2184), the table also has U -> unicode.ToUpper(v)",
+		"for every character U inside the range the readers admit (0x00C0..0x2184) whose lower-case form k = unicode.ToLower(U) is a different character that algo.normalized maps to a letter v in a..z, the table also has U -> unicode.ToUpper(v)",
 		"a case-sensitive term drops lines whose capital letter carries an accent although the same term in lower case finds them: a matching line is not shown")
 	g := l.Global("algo", "normalized")
 	if g == nil {
@@ -3088,11 +3088,16 @@ func c01r12(c *Ctx, r *Report) {
 	}
 	sort.Ints(ks)
 	pairs, missing := 0, []string{}
-	for _, ki := range ks {
-		k := rune(ki)
-		v := tab[k]
-		u := unicode.ToUpper(k)
-		if u == k || u < 0x00C0 || u > 0x2184 || v < 'a' || v > 'z' || unicode.ToLower(u) != k {
+	_ = ks
+	// every capital U inside the admitted range whose small letter is an entry (a small letter can have more than
+	// one capital: U+00E5 has U+00C5 and the Angstrom sign U+212B, U+00DF has U+1E9E)
+	for u := rune(0x00C0); u <= 0x2184; u++ {
+		k := unicode.ToLower(u)
+		if k == u {
+			continue
+		}
+		v, isEntry := tab[k]
+		if !isEntry || v < 'a' || v > 'z' {
 			continue
 		}
 		pairs++
